@@ -396,6 +396,7 @@ pub fn property() -> Property {
     Property {
         id: "C11",
         subs: vec![sub::<Hash>(), sub::<SemBuilder>()],
+        fuzz: vec![],
         assumptions: vec![
             "a collision of two different functions in the 64-bit field (probability about 2^-64 per pair) is treated as impossible",
             "cached_semantic_hash is used with one fixed (prime, map) per builder: its per-node memo is untyped in the prime by design and the property states it for a fixed field and weight map",
